@@ -15,6 +15,8 @@ EXPLANATION = ("Bounded symbolic execution (CrossHair/z3) of start_at and one st
                "instrumented hosts with decorated states. Oracle from the chart tables: after start_at exactly one record (top, None, start or "
                "resting state); after the step exactly one new record (previous resting state, signal name, new resting state) iff the answering "
                "state returned a transition, none otherwise; the buffer keeps the most recent TRC_RING_BUFFER_SIZE records in order.")
+EXPLANATION += (" A second family (h_trace_recall) lets an entry / exit / init action or the answering handler recall a deferred event while the "
+                "transition is under way: the record must still carry the event's own signal.")
 RULE = "one case per (chart tuple, reaction kind, host, ring variant); non-trivial = a transition record was expected"
 LIM = {"quick": dict(N=4), "thorough": dict(N=6)}
 IHOSTS = [1, 2, 4, 5]
@@ -77,6 +79,66 @@ def case(l, a, b, k, tsel, j1, pm, rk, hosti, ring):
 Family(globals(), "h_trace", params=[("l", 0, 2), ("a", 1, 3), ("b", 0, 3), ("k", 0, 4), ("tsel", 0, 7), ("j1", 0, 3), ("pm", 0, 1), ("rk", 0, 2),
                                      ("hosti", 0, 3), ("ring", 0, 1)],
        pre=pre, case=case, split=["hosti", "ring"], tiers=LIM)
+
+
+# ---- a deferred event is recalled by an entry / exit / init action while a transition is under way -------------------------
+QHOSTS = [2, 4, 5]
+WHERE = ["exit of the source", "entry of the target", "init of the target", "the handler that answers (before it returns the transition)"]
+
+
+def pre_r(v, lim):
+  return True
+
+
+def case_recall(hosti, where, nd, deep):
+  """chart p > {a, b (> c if deep)}; current a; the event takes a -> b; `nd` events were deferred before; one recall() at `where`"""
+  from vf import charts
+  host = QHOSTS[hosti]
+  parent = [-1, 0, 0] + ([2] if deep else [])
+  react = [charts.R_PASS, 2, charts.R_PASS] + ([charts.R_PASS] if deep else [])
+  init = [-1, -1, 3 if deep else -1] + ([-1] if deep else [])
+  what = "host=%s recall in %s, %d deferred, target %s" % (hosts.HOSTS[host], WHERE[where], nd, "with an initial transition" if deep else "plain")
+  try:
+    c, spy_lines, trace_lines = hosts.make(host)
+    ch = charts.Chart(parent, react, init, decorate=True, fresh=False)
+    recalled = []
+
+    def hook(kind, i, chart):
+      if (where, kind, i) in ((0, "ex", 1), (1, "en", 2), (2, "in", 2)):
+        recalled.append(chart.recall())
+    ch.action_hook = hook
+    if where == 3:
+      raw = ch.raw[1]
+    c.start_at(ch.hs[1])
+    deferred = [ch.Event(signal="W_DEFERRED%d" % i) for i in range(nd)]
+    for e in deferred:
+      c.defer(e)
+    before = [rec(t) for t in c.full.trace]
+    if where == 3:
+      # recall from the answering handler itself: wrap state a's reaction
+      orig = ch._react
+
+      def react_with_recall(i, chart, s):
+        if i == 1 and s == ch.SIG:
+          recalled.append(chart.recall())
+        return orig(i, chart, s)
+      ch._react = react_with_recall
+    hosts.step(c, host, ch.Event(signal=ch.SIG))
+    after = [rec(t) for t in c.full.trace]
+  except Exception as ex:
+    return FAIL("raised:%s" % type(ex).__name__, "%s: %r" % (what, ex))
+  n = ch.names
+  rest = 3 if deep else 2
+  want = before + [(n[1], ch.sig_name, n[rest])]
+  if after != want:
+    sig = "trace-record-wrong-signal" if len(after) == len(want) and after[-1][1] != ch.sig_name else "trace-after-tran-step"
+    return FAIL(sig + ":recall-during-transition", "%s: trace %s expected %s" % (what, after, want))
+  if len(recalled) != 1 or recalled[0] is not (deferred[0] if nd else None):
+    return FAIL("harness:recall", "%s: recalled %r" % (what, recalled))
+  return PASS(nontrivial=nd > 0)
+
+
+Family(globals(), "h_trace_recall", params=[("hosti", 0, 2), ("where", 0, 3), ("nd", 0, 2), ("deep", 0, 1)], pre=pre_r, case=case_recall, split=[], tiers=LIM)
 
 
 def set_tier(tier):
